@@ -131,9 +131,12 @@ pub fn build_universe_with(
             input_defaults: rng.chance(30),
             ..RenderKnobs::default()
         };
-        let sdl = schema.to_sdl(&knobs);
+        // a quarter of the random cases read the schema from introspection JSON instead of SDL
+        let as_json = !from_corpus && rng.chance(25);
+        let sdl = if as_json { serde_json::to_string(&schema.to_json(&RenderKnobs { json_wrapped: rng.chance(50), ..knobs.clone() })).unwrap() } else { schema.to_sdl(&knobs) };
+        rep.count(if as_json { "schema-format:json" } else { "schema-format:sdl" });
         let qtext = doc.render();
-        let res = ctx.run(&sdl, false, &qtext, &opts);
+        let res = ctx.run(&sdl, as_json, &qtext, &opts);
         let lenient = res.lenient;
         if !res.diffs.is_empty() {
             rep.disagree(json!({"what": "IR", "diffs": res.diffs.iter().take(5).collect::<Vec<_>>(), "schema": sdl, "query": qtext, "options": opts.describe()}));
@@ -295,7 +298,8 @@ pub fn c01_corpus() -> Vec<(ASchema, ADoc)> {
                 }
                 s2
             },
-            mk(vec![fld("animal", vec![ASel::Typename, fld("nick", vec![]), ASel::Inline { on: "Cat".into(), sub: vec![fld("meows", vec![])] }, ASel::Inline { on: "Dog".into(), sub: vec![fld("barks", vec![])] }])], vec![]),
+            // (no inline fragment on `Cat`: a payload of runtime type Cat still has to select its own unit variant)
+            mk(vec![fld("animal", vec![ASel::Typename, fld("nick", vec![]), ASel::Inline { on: "Dog".into(), sub: vec![fld("barks", vec![])] }])], vec![]),
         ),
     ]
 }
